@@ -138,11 +138,11 @@ prop(
     "network/last/+-1/every single-bit flip of the base/24 random probes; slices.SortFunc and SortStableFunc with PreferIPv4/6 are compared with the stable partition [preferred family asc][other family asc][invalid]. "
     "Non-trivial: a valid-address conversion, a non-canonical mask, a successful subnet conversion, a slice of >=2 addresses; pool cases are distinct by construction",
     [st("conv", "c12", "TestConv", timeout_q=600, timeout_t=2400), st("sort", "c12", "TestSort", timeout_q=600, timeout_t=2400)],
-    floors=[dict(stage="conv", key="subnet_conversions_ok", min=2_000), dict(stage="conv", key="addr_conversions_ok", min=50), dict(stage="sort", key="sorted_slices", min=100_000)],
+    floors=[dict(stage="conv", key="subnet_conversions_ok", min=2_000), dict(stage="conv", key="addr_conversions_ok", min=50), dict(stage="sort", key="sorted_slices", min=100_000), dict(stage="sort", key="sorted_zone_slices", min=10_000)],
     assumptions=["for fam=IPv6 the membership clause is judged on genuine IPv6 bases only (net.IPNet has no coherent membership for a 4in6 base with a 16-byte mask)", "netip.Addr.Compare defines 'ascending'"],
 )
 
-LINEGEN = ("hosts lines: leads x addresses (valid/invalid/zoned/4in6) x separators (space, tab, runs, \\v, \\r, NBSP, \\f) x names (valid, bad label, IDN, invalid UTF-8, over-long, CR/VT inside) x trails/comments exhaustively for 0..2 names, "
+LINEGEN = ("hosts lines: leads x addresses (valid/invalid/zoned/4in6) x separators (space, tab, runs, \\v, \\r, NBSP, \\f) x names (valid, bad label, IDN, invalid UTF-8, over-long, CR/VT inside, made of or containing 18 kinds of Unicode white space) x trails/comments exhaustively for 0..2 names, "
            "sampled for 3..5 names, '#', CR, NUL and double blanks inserted at every byte position of base lines, all strings <=6(8) over '1 . : a # space tab CR', mutants of repository rows, seeded random")
 prop(
     "C07",
@@ -246,7 +246,7 @@ prop(
 prop(
     "C20",
     "per-request-id trace checker: every request carries one id in URL, header, body, host, remote address and a context value; the wrapped handler checks them against each other, logs through the context logger and answers from a per-id script "
-    "(nothing / Write only / WriteHeader(code in 200..599) / 1xx then code); the base logger is a recording slog.Handler in two legal flavours (copies the attrs in WithAttrs / retains the slice and reads it at Handle time) that yields "
+    "(nothing / Write only / WriteHeader(code in 200..999) / 1xx then code); the base logger is a recording slog.Handler in two legal flavours (copies the attrs in WithAttrs / retains the slice and reads it at Handle time) that yields "
     "inside Enabled and Handle; an offline checker groups records and responses by id: one started, one finished with the code that invocation set (200 when none), one handler record, all carrying that request's host/method/raddr/request_uri, "
     "and the client got exactly what its invocation wrote. Concurrency: direct ServeHTTP from 2..64 goroutines with an in-handler barrier that provably holds K requests inside the handler at once and releases them in seeded orders (all "
     "orders for K<=4), several batches per middleware so pooled objects are reused, then sequential requests alternating scripts; a real httptest.Server on loopback with keep-alive clients; under -race and again with GOMAXPROCS=2. "
